@@ -122,7 +122,15 @@ type run struct {
 	sawBlockedCall bool // some actor sat inside a /repo call while the controller moved on
 	sawTaskPending bool // a consumer was blocked in a call while a task above it had not finished
 	bubbleDeadlock string
+
+	knownReadAtEOF bool     // KNOWN_FINDINGS.txt lists keyReadAtEOF: tolerate and count
+	excluded       []string // tolerated occurrences of listed findings
 }
+
+// keyReadAtEOF: casBufferWithBackgroundTask.ReadAt returns the base buffer's
+// io.EOF (short read at the end of the object) without consulting the
+// task's error.
+const keyReadAtEOF = "readat-eof-hides-task-error"
 
 func newRun(p *program, freeRun bool) *run {
 	r := &run{
@@ -377,6 +385,12 @@ func (r *run) progressMark() int64 {
 	return m
 }
 
+func (r *run) panicked() bool {
+	r.mu.Lock()
+	defer r.mu.Unlock()
+	return len(r.panics) > 0
+}
+
 func (r *run) observe() {
 	for _, a := range r.actors {
 		if a.started.Load() && !a.done.Load() && !a.dead.Load() && !a.waiting.Load() {
@@ -420,13 +434,19 @@ func (r *run) drive() {
 			r.give(a)
 			synctest.Wait()
 			r.observe()
+			if r.panicked() {
+				break
+			}
 		}
 		// Unbounded supply for everybody, still one token at a time so
 		// that the execution stays a function of the generated values.
-		for {
+		// A panic ends the case at once: the panicking call may have left
+		// a mutex of the buffer locked, and a goroutine spinning up to it
+		// would not count as blocked for synctest.Wait.
+		for !r.panicked() {
 			progress, unfinished := false, false
 			for _, a := range r.actors {
-				if a.done.Load() || a.dead.Load() {
+				if a.done.Load() || a.dead.Load() || r.panicked() {
 					continue
 				}
 				unfinished = true
@@ -610,11 +630,16 @@ func (r *run) checkConsumer(who string, n *node, s *script, res *result) string 
 			if !e.taskOnly {
 				return fail("returned n=%d err=%v, but must fail with one of: %s", res.n, res.err, classes(e.accept))
 			}
-			// Only a task above fails. A read that runs into the end of
-			// the object reports io.EOF, which is accepted in place of
-			// the task's error (see assumptions); a nil error is not.
+			// Only a task above fails: the data is fine, so the task's
+			// error must be reported, also when the read runs into the
+			// end of the object (io.EOF is success to an io.ReaderAt user).
 			if res.err == nil {
 				return fail("returned n=%d without error although a task above failed (must report one of: %s)", res.n, classes(e.accept))
+			}
+			if r.knownReadAtEOF {
+				r.excluded = append(r.excluded, keyReadAtEOF)
+			} else {
+				return fail("returned n=%d with io.EOF although a task above failed: the task's error is lost (must report one of: %s)", res.n, classes(e.accept))
 			}
 		}
 		if res.n != len(want) || string(res.data) != string(want) {
@@ -732,6 +757,26 @@ func (r *run) checkOrdering(who string, n *node, s *script, res *result, inTask 
 		}
 	}
 	return ""
+}
+
+// hangVerdict describes a case whose bubble never came to rest. The run is
+// still live, so only atomics and the mutex-protected panic list are read.
+func (r *run) hangVerdict() string {
+	var busy []string
+	for _, a := range r.actors {
+		if a.started.Load() && !a.done.Load() && !a.dead.Load() && !a.waiting.Load() {
+			busy = append(busy, a.name+" in "+a.at())
+		}
+	}
+	r.mu.Lock()
+	panics := append([]string(nil), r.panics...)
+	r.mu.Unlock()
+	sort.Strings(panics)
+	msg := "hang: the goroutines of the case neither finished nor blocked on a channel (spinning, or waiting for a mutex that is never released); inside calls: " + strings.Join(busy, "; ")
+	if len(panics) > 0 {
+		msg += "; preceded by panic: " + strings.Join(panics, "; ")
+	}
+	return msg
 }
 
 // judge returns the first violated clause, or "".
